@@ -48,6 +48,14 @@ type Person struct {
 // Upper is a zero-argument method callable from templates.
 func (p Person) Upper() string { return strings.ToUpper(p.Name) }
 
+// Fail returns an error for odd ages (a method with an error result).
+func (p Person) Fail() (string, error) {
+	if p.Age%2 == 1 {
+		return "", fmt.Errorf("person %s is odd", p.Name)
+	}
+	return "even", nil
+}
+
 // PtrLen has a pointer receiver.
 func (p *Person) PtrLen() int { return len(p.Tags) }
 
